@@ -38,4 +38,75 @@ def showNext : Next → String
   | .fire => "fire"
   | .second d => s!"second:{d}"
 
+/-! ## Re-term: a hold is given new terms while its expiry entry sits somewhere
+
+`LockDB.Lock`, the UPDATE branch (`LOCK_FLAG_UPDATE_WHEN_LOCKED`) and the RE-LOCK branch below it (same LockId, depth ≤ Rcount, value ≠ 0).
+The decision modelled here is what happens to the hold's EXPIRY ENTRY at that moment. The entry is in one of four places: the second wheel
+(`wheel`), the long table (`long`: `longWaitIndex > 0`), parked in a slot of the millisecond table (`parked`), or back in the second wheel
+after its park (`handed`). Units: seconds and milliseconds (the minute unit and the unlimited flag are left out: the harness does not use
+them). Server time in seconds. -/
+
+inductive Place where
+  | wheel | long | parked | handed
+  deriving Repr, DecidableEq
+
+inductive Reterm where
+  /-- answered, nothing changed: the hold keeps its command and its deadline (the "same terms" shortcut of an update) -/
+  | ignored
+  /-- the hold record carries `deadline`; its entry is in the second wheel (`long = false`: where it was, or freshly pushed by `AddExpried`)
+      or still in the long table under the unchanged deadline (`long = true`) -/
+  | secondAt (deadline : Nat) (long : Bool)
+  /-- taken out of the long table and parked in the millisecond table (`AddMillisecondExpried`); the record carries `deadline` -/
+  | reparked (deadline : Nat)
+  /-- the entry stays in its OLD millisecond slot; the record carries the new command and `deadline` -/
+  | staleParked (deadline : Nat)
+  deriving Repr, DecidableEq
+
+/-- `LockManager.UpdateLockedLock`: the deadline second written into the hold record (`startTime` becomes `now`) -/
+def newDeadline (now : Nat) (ms : Bool) (val : Nat) : Nat := now + (if ms then val / 1000 else val) + 1
+
+/-- `LockManager.CheckLockedEqual` for the second and the millisecond unit: the "same terms, nothing to do" test of an update.
+`countsEq` = `checkLockedCountEqual`. Second unit: the deadline the new terms would give is within one second of the current one.
+Millisecond unit: the counts only. -/
+def sameTerms (now expT : Nat) (ms : Bool) (val : Nat) (countsEq : Bool) : Bool :=
+  if ms then countsEq
+  else
+    let d := now + val + 1
+    (if d > expT then decide (d - expT ≤ 1) else decide (expT - d ≤ 1)) && countsEq
+
+/-- the expiry-flag word the harness sends for a unit -/
+def eflagOf (ms : Bool) : Nat := if ms then 1024 else 0
+
+/-- What the update (`isUpdate = true`) / re-lock (`false`) does with the expiry entry. A re-lock has no shortcut. Only an entry in the
+long table is ever moved (`currentLock.longWaitIndex > 0`): to the millisecond table for millisecond terms, to the second wheel
+(`expriedCheckedCount` was reset to 1 by `UpdateLockedLock`) for second terms with a changed deadline. Everywhere else the record is
+rewritten and the entry is left where it is. -/
+def reterm (place : Place) (isUpdate countsEq : Bool) (now expT : Nat) (ms : Bool) (val : Nat) : Reterm :=
+  if isUpdate && sameTerms now expT ms val countsEq then .ignored
+  else
+    let d := newDeadline now ms val
+    match place with
+    | .long => if ms then .reparked d else if d = expT then .secondAt d true else .secondAt d false
+    | .parked => .staleParked d
+    | .wheel => .secondAt d false
+    | .handed => .secondAt d false
+
+/-- a stale entry when its OLD park ends: the park goroutine reads the value of the hold's CURRENT command — the new one, in whatever unit
+it was given — as milliseconds, counted from the new `startTime` (= the second of the update) -/
+def staleAfterPark (now val : Nat) : Next := afterPark now val
+
+def showReterm (now val : Nat) : Reterm → String
+  | .ignored => "ignored"
+  | .secondAt d false => s!"second:{d}"
+  | .secondAt d true => s!"second:{d}:long"
+  | .reparked d => s!"reparked:{d}"
+  | .staleParked d => s!"stale:{d}:{showNext (staleAfterPark now val)}"
+
+def parsePlace : String → Option Place
+  | "wheel" => some .wheel
+  | "long" => some .long
+  | "parked" => some .parked
+  | "handed" => some .handed
+  | _ => none
+
 end Slock.Ms
